@@ -285,3 +285,77 @@ CONTRACTS.update({
         mustfail="all(k in graph.outputs for k in result)",
     ),
 })
+
+CONTRACTS.update({
+    F + "_is_node_ready": dict(
+        props=["C01", "C03", "C17"],
+        params={"node": NODE, "graph": GRAPH, "state": STATE, "activated_nodes": SET(STR)},
+        returns=BOOL,
+        ensures=["result == ready0(graph, state, node, activated_nodes)"],
+        mustfail="result == (node.name in activated_nodes and all_avail(graph, state, node) and needs(graph, state, node))",
+    ),
+    F + "_defer_wait_for_nodes": dict(
+        props=["C17"],
+        params={"ready": SEQ(NODE), "graph": GRAPH},
+        returns=SEQ(NODE),
+        ensures=[
+            "all(n in ready and not is_deferred(ready, n) for n in result)",
+            "all(is_deferred(ready, n) or n in result for n in ready)",
+        ],
+        modifies=[],
+        loops=[
+            {"invariant": ["forall_keys(lambda k: (k in ready_outputs) == any(k in m.outputs for m in _seq[:_i]), ready_outputs)"]},
+            {"invariant": [
+                "forall_keys(lambda k: (k in ready_outputs) == any(k in m.outputs for m in ready), ready_outputs)",
+                "all((n.name in deferred) == is_deferred(ready, n) for n in _seq[:_i])",
+                "forall_keys(lambda k: k not in deferred or any(n.name == k for n in _seq[:_i]), deferred)",
+            ]},
+            {"invariant": [
+                "forall_keys(lambda k: (k in ready_outputs) == any(k in m.outputs for m in ready), ready_outputs)",
+                "all((n.name in deferred) == is_deferred(ready, n) for n in _seq1[:_i1])",
+                "forall_keys(lambda k: k not in deferred or any(n.name == k for n in _seq1[:_i1]), deferred)",
+                "not any(w in m.outputs and m.name != node.name for w in _seq[:_i] for m in ready)",
+            ]},
+            {"invariant": [
+                "forall_keys(lambda k: (k in ready_outputs) == any(k in m.outputs for m in ready), ready_outputs)",
+                "all((n.name in deferred) == is_deferred(ready, n) for n in _seq1[:_i1])",
+                "forall_keys(lambda k: k not in deferred or any(n.name == k for n in _seq1[:_i1]), deferred)",
+                "not any(w in m.outputs and m.name != node.name for w in _seq2[:_i2] for m in ready)",
+                "not any(name in m.outputs and m.name != node.name for m in _seq[:_i])",
+            ]},
+        ],
+        requires=["all(ready[i].name != ready[j].name for i in range(len(ready)) for j in range(len(ready)) if i != j)"],
+        mustfail="all(n in result for n in ready)",
+    ),
+})
+
+READY_P = ("in_scope(n, active_nodes) and node_activated(graph, state, n.name, END) and all_avail(graph, state, n) "
+           "and wf_ok(state, n) and needs(graph, state, n)")
+
+CONTRACTS.update({
+    F + "get_ready_nodes": dict(
+        props=["C01", "C03", "C16", "C17"],
+        params={"graph": GRAPH, "state": STATE, "active_nodes": OPT(SET(STR))},
+        returns=SEQ(NODE),
+        requires=["nodes_keyed_by_name(graph)", "all(gate_targets_ok(g, END) for g in graph._nodes.values())"],
+        imports={"END": "hypergraph.nodes.gate"},
+        ensures=CLEAR_POST + [
+            # every returned node is in scope, activated by the (cleared) decisions, has its inputs, is ordered and needs a run
+            "all(" + READY_P + " for n in result)",
+            # P2: when a gate and its targets are runnable together the gate decides first
+            "all(not is_gate(g) or all(t is END or t == g.name or not any(m.name == t for m in result) for t in g.targets) for g in result)",
+            # C17: a waiter never starts in the same step as a producer of an awaited name
+            "all(not any(w in m.outputs and m.name != n.name for w in n.wait_for for m in result) for n in result)",
+        ],
+        modifies=["state.routing_decisions"],
+        loops=[
+            {"invariant": ["all(" + READY_P.replace("node_activated(graph, state, n.name, END)", "n.name in activated_nodes") + " for n in ready)",
+                           "all(n.name in graph._nodes and graph._nodes[n.name] is n for n in ready)",
+                           "all(any(m is n for m in _seq[:_i]) for n in ready)"]},
+            {"invariant": ["all(not is_gate(g) or g.name not in _seq[:_i] or targets_blocked(g, blocked_targets, END) for g in ready)"]},
+            {"invariant": ["all(not is_gate(g) or g.name not in _seq1[:_i1] or targets_blocked(g, blocked_targets, END) for g in ready)",
+                           "all(t is END or t == gate_name or t in blocked_targets for t in _seq[:_i])"]},
+        ],
+        mustfail="all(" + READY_P.replace(" and wf_ok(state, n)", "") + " and not n.wait_for for n in result)",
+    ),
+})
